@@ -1,24 +1,7 @@
 #pragma once
 // fifo_cache: list<element{optional<keyed iterator>, value}> (free nodes form a prefix) + unordered_map<key, list iterator>
-#include <optional>
-#include <cappuccino/allow.hpp>
-#include <cappuccino/lock.hpp>
-#include <cappuccino/peek.hpp>
-#include <cappuccino/fifo_cache.hpp>
+#include "api_fifo.hpp"
 #include "vf_inv.hpp"
-#include "abs.hpp"
-#define T_NAME "fifo"
-#define T_POLICY P_FIFO
-#define T_TTL 0
-#define T_PEEK 0
-#define T_CAPPED 1
-#define T_PURGE 0
-#define T_HAS_CLEAN 0
-#define T_HAS_CLEAR 0
-#define T_HAS_AGE 0
-#define T_HAS_UPDTTL 0
-using C = cappuccino::fifo_cache<uint64_t, uint64_t, cappuccino::thread_safe::TS>;
-#define DECL_C(c) C c(HCAP)
 using FifoIt  = typename std::list<typename C::element>::iterator;
 using KeyedIt = typename std::unordered_map<uint64_t, FifoIt>::iterator;
 
@@ -97,13 +80,4 @@ static void alpha(C& c, Abs& a)
         }
         cur = L.m_pool[cur].next;
     }
-}
-static bool x_insert(C& c, uint64_t k, uint64_t v, uint8_t a, int64_t) { return c.insert(k, v, (cappuccino::allow)a); }
-static bool x_erase(C& c, uint64_t k) { return c.erase(k); }
-static void x_find(C& c, uint64_t k, bool, Res& r)
-{
-    auto o = c.find(k);
-    r.ok   = o.has_value();
-    r.val  = r.ok ? *o : 0;
-    r.cnt  = 0;
 }
